@@ -67,3 +67,82 @@ Proof.
       assert (IH' := IH PatDefs.SDesc Hc0 ltac:(intros; congruence)).
       unfold step_dos. cbn [esteps_path]. rewrite IH'. reflexivity.
 Qed.
+
+Lemma esteps_first_not_root : forall r, match esteps_of r with (AxRoot, _, _) :: _ => False | _ => True end.
+Proof. intros [|[[k t] ps] r]; cbn; [exact I|]. destruct (is_attr_kind k); exact I. Qed.
+
+Lemma path_of_expr_agree : forall I a, canon_lp a = true ->
+  path_of_expr I (expr_of_lp a) = Some (path_of_lp I a).
+Proof.
+  intros I a Hc. unfold canon_lp, expr_of_lp, path_of_lp in *. destruct (split_head a) as [h r]. andbs Hc.
+  destruct h as [| | |f|f].
+  - apply isnil_ne in Hc0. cbn [path_of_expr].
+    pose proof (esteps_path_agree I r PatDefs.SChild Hc ltac:(intros; reflexivity)) as E.
+    destruct r as [|[[k t] ps] r']; [congruence|].
+    change (esteps_of ((k, t, ps) :: r')) with (((if is_attr_kind k then AxAttribute else AxChild), t, ps) :: (if is_any k then [step_dos] else []) ++ esteps_of r') in *.
+    destruct (is_attr_kind k); rewrite E; reflexivity.
+  - unfold step_root. cbn [path_of_expr].
+    rewrite (esteps_path_agree I r PatDefs.SChild Hc ltac:(intros; reflexivity)). reflexivity.
+  - apply isnil_ne in Hc0. unfold step_root. cbn [path_of_expr].
+    assert (X : esteps_path I PatDefs.SChild (step_dos :: esteps_of r) = esteps_path I PatDefs.SDesc (esteps_of r)) by reflexivity.
+    rewrite X. rewrite (esteps_path_agree I r PatDefs.SDesc Hc ltac:(intros; congruence)). reflexivity.
+  - destruct f; try discriminate Hc0.
+    destruct r as [|s r']; [reflexivity|]. cbn [path_of_expr].
+    rewrite (esteps_path_agree I (s :: r') PatDefs.SChild Hc ltac:(intros; reflexivity)). reflexivity.
+  - destruct f; try discriminate Hc0. apply andb_prop in Hc0. destruct Hc0 as [_ Hne]. apply isnil_ne in Hne.
+    cbn [path_of_expr].
+    assert (X : esteps_path I PatDefs.SChild (step_dos :: esteps_of r) = esteps_path I PatDefs.SDesc (esteps_of r)) by reflexivity.
+    rewrite X. rewrite (esteps_path_agree I r PatDefs.SDesc Hc ltac:(intros; congruence)). reflexivity.
+Qed.
+
+Lemma ssteps_wf : forall I r sp, interp_ok I -> PatModel2.wf_steps (ssteps_of I sp r).
+Proof.
+  intros I r. induction r as [|[[k t] ps] r IH]; intros sp HI; [constructor|].
+  cbn [ssteps_of]. constructor; [|apply IH; exact HI].
+  cbn [snd sstep_of PatDefs.s_preds]. apply Forall_forall. intros p Hp. apply in_map_iff in Hp.
+  destruct Hp as [q [<- _]]. apply HI.
+Qed.
+
+Lemma path_of_lp_wf : forall I a, interp_ok I -> canon_lp a = true -> PatModel3.wf_path (path_of_lp I a).
+Proof.
+  intros I a HI Hc. unfold canon_lp, path_of_lp in *. destruct (split_head a) as [h r]. andbs Hc.
+  destruct h as [| | |f|f]; split; cbn [PatDefs.p_steps]; try apply ssteps_wf; auto; try reflexivity.
+  apply isnil_ne in Hc0. destruct r; [congruence|reflexivity].
+Qed.
+
+Lemma alts_of_expr_of : forall P, P <> [] -> forallb canon_lp P = true -> alts_of (expr_of P) = map expr_of_lp P.
+Proof.
+  intros [|a [|b r]] NE Hc; [congruence| |reflexivity].
+  cbn [expr_of map]. cbn [forallb] in Hc. apply andb_prop in Hc. destruct Hc as [Hc _].
+  unfold alts_of, expr_of_lp, canon_lp in *. destruct (split_head a) as [h q]. andbs Hc.
+  destruct h; try reflexivity. destruct q; [|reflexivity]. destruct f; try discriminate Hc0. reflexivity.
+Qed.
+
+Theorem compose_m : forall fl ns P, pcanon P = true -> S (dep_pattern P) <= gen_xpc_max_nesting ->
+  pparse fl ns (ppr P) = Ok P /\ parse fl ns (ppr P) = Ok (expr_of P) /\
+  forall I D n, interp_ok I -> PatDefs.wf_doc D = true -> n < length D ->
+    (pattern_matches I D P n = true <-> expr_selects I D (expr_of P) n).
+Proof.
+  intros fl ns P Hc Hd. split; [apply pattern_parse_print_m; auto; lia|].
+  split; [apply pattern_as_expression_m; auto|].
+  intros I D n HI W Hn.
+  unfold pcanon in Hc. apply andb_prop in Hc. destruct Hc as [H1 H2]. apply isnil_ne in H1.
+  assert (M : pattern_matches I D P n = PatDefs.matches D (map (path_of_lp I) P) n).
+  { unfold pattern_matches, PatDefs.matches. rewrite existsb_map_eq. 2: reflexivity.
+    clear H1. induction P as [|a r IH]; [reflexivity|].
+    cbn [forallb] in H2. apply andb_prop in H2. destruct H2 as [Ha Hr].
+    cbn [existsb map]. unfold PatDefs.match_path at 1. rewrite (compile_agree I D a Ha). rewrite IH; auto. }
+  rewrite M.
+  rewrite (PatModel3.matches_iff_selects D (map (path_of_lp I) P) n W).
+  2:{ intros p Hp. apply in_map_iff in Hp. destruct Hp as [a [<- Ha]]. apply path_of_lp_wf; auto.
+      rewrite forallb_forall in H2. apply H2. exact Ha. }
+  2: exact Hn.
+  unfold PatDefs.selects, expr_selects. rewrite (alts_of_expr_of P H1 H2). split.
+  - intros (p & a0 & Hp & Ha & Hs). apply in_map_iff in Hp. destruct Hp as [a [<- Hin]].
+    exists (expr_of_lp a), (path_of_lp I a), a0. repeat split; auto.
+    + apply in_map. exact Hin.
+    + apply path_of_expr_agree. rewrite forallb_forall in H2. apply H2. exact Hin.
+  - intros (x & p & a0 & Hx & Hp & Ha & Hs). apply in_map_iff in Hx. destruct Hx as [a [<- Hin]].
+    rewrite path_of_expr_agree in Hp by (rewrite forallb_forall in H2; apply H2; exact Hin).
+    inversion Hp; subst. exists (path_of_lp I a), a0. repeat split; auto. apply in_map. exact Hin.
+Qed.
